@@ -197,19 +197,25 @@ func TestSort(t *testing.T) {
 		checkSort(t, rc)
 		return
 	}
-	rapid.Check(t, func(t *rapid.T) {
-		kind := rapid.IntRange(0, len(ltKinds)-1).Draw(t, "lt")
-		shape, keys := genKeys(t, !ltKinds[kind].strict)
-		c := sortCase{
-			Algo:  rapid.SampledFrom([]string{"SortMerge", "SortQuick"}).Draw(t, "algo"),
-			LT:    ltKinds[kind].name,
-			Shape: shape,
-			Keys:  keys,
-			After: rapid.SampledFrom([]string{"push-pop", "sort-again-quick", "sort-again-merge", "extend", "copy"}).Draw(t, "after"),
-		}
-		checkSort(t, c)
-	})
+	rapid.Check(t, propSort)
 }
+
+// propSort is the generated property; FuzzSort drives the same function with
+// the native coverage-guided fuzzer (rapid.MakeFuzz decodes the bytes).
+func propSort(t *rapid.T) {
+	kind := rapid.IntRange(0, len(ltKinds)-1).Draw(t, "lt")
+	shape, keys := genKeys(t, !ltKinds[kind].strict)
+	c := sortCase{
+		Algo:  rapid.SampledFrom([]string{"SortMerge", "SortQuick"}).Draw(t, "algo"),
+		LT:    ltKinds[kind].name,
+		Shape: shape,
+		Keys:  keys,
+		After: rapid.SampledFrom([]string{"push-pop", "sort-again-quick", "sort-again-merge", "extend", "copy"}).Draw(t, "after"),
+	}
+	checkSort(t, c)
+}
+
+func FuzzSort(f *testing.F) { f.Fuzz(rapid.MakeFuzz(propSort)) }
 
 func ltByName(name string) ltKind {
 	for _, k := range ltKinds {
@@ -381,12 +387,18 @@ func TestIsSorted(t *testing.T) {
 		checkIsSorted(t, rc)
 		return
 	}
-	rapid.Check(t, func(t *rapid.T) {
-		kind := rapid.IntRange(0, len(ltKinds)-1).Draw(t, "lt")
-		shape, keys := genKeys(t, !ltKinds[kind].strict)
-		checkIsSorted(t, isSortedCase{LT: ltKinds[kind].name, Shape: shape, Keys: keys})
-	})
+	rapid.Check(t, propIsSorted)
 }
+
+// propIsSorted is the generated property; FuzzIsSorted drives the same function with
+// the native coverage-guided fuzzer (rapid.MakeFuzz decodes the bytes).
+func propIsSorted(t *rapid.T) {
+	kind := rapid.IntRange(0, len(ltKinds)-1).Draw(t, "lt")
+	shape, keys := genKeys(t, !ltKinds[kind].strict)
+	checkIsSorted(t, isSortedCase{LT: ltKinds[kind].name, Shape: shape, Keys: keys})
+}
+
+func FuzzIsSorted(f *testing.F) { f.Fuzz(rapid.MakeFuzz(propIsSorted)) }
 
 func checkIsSorted(t vkit.TB, c isSortedCase) {
 	kind := ltByName(c.LT)
@@ -446,26 +458,32 @@ func TestHeap(t *testing.T) {
 		checkHeap(t, rc)
 		return
 	}
-	rapid.Check(t, func(t *rapid.T) {
-		kind := rapid.IntRange(0, 3).Draw(t, "lt") // strict kinds only: heaps hold duplicates
-		c := heapCase{LT: ltKinds[kind].name}
-		if rapid.Bool().Draw(t, "fromIterator") {
-			_, c.Init = genKeys(t, false)
-		}
-		small := rapid.Bool().Draw(t, "smallDomain")
-		n := rapid.IntRange(0, 30).Draw(t, "nops")
-		for i := 0; i < n; i++ {
-			if rapid.IntRange(0, 2).Draw(t, "pop") == 0 {
-				c.Ops = append(c.Ops, -1)
-			} else if small {
-				c.Ops = append(c.Ops, 1000+rapid.IntRange(-2, 2).Draw(t, "k"))
-			} else {
-				c.Ops = append(c.Ops, 1000+rapid.IntRange(-50, 50).Draw(t, "k"))
-			}
-		}
-		checkHeap(t, c)
-	})
+	rapid.Check(t, propHeap)
 }
+
+// propHeap is the generated property; FuzzHeap drives the same function with
+// the native coverage-guided fuzzer (rapid.MakeFuzz decodes the bytes).
+func propHeap(t *rapid.T) {
+	kind := rapid.IntRange(0, 3).Draw(t, "lt") // strict kinds only: heaps hold duplicates
+	c := heapCase{LT: ltKinds[kind].name}
+	if rapid.Bool().Draw(t, "fromIterator") {
+		_, c.Init = genKeys(t, false)
+	}
+	small := rapid.Bool().Draw(t, "smallDomain")
+	n := rapid.IntRange(0, 30).Draw(t, "nops")
+	for i := 0; i < n; i++ {
+		if rapid.IntRange(0, 2).Draw(t, "pop") == 0 {
+			c.Ops = append(c.Ops, -1)
+		} else if small {
+			c.Ops = append(c.Ops, 1000+rapid.IntRange(-2, 2).Draw(t, "k"))
+		} else {
+			c.Ops = append(c.Ops, 1000+rapid.IntRange(-50, 50).Draw(t, "k"))
+		}
+	}
+	checkHeap(t, c)
+}
+
+func FuzzHeap(f *testing.F) { f.Fuzz(rapid.MakeFuzz(propHeap)) }
 
 func checkHeap(t vkit.TB, c heapCase) {
 	kind := ltByName(c.LT)
